@@ -1261,8 +1261,9 @@ def run_shard(ctx, spec):
     mine = grid[ctx.shard::16] + perms[ctx.shard::16]
     for c in mine:
         ctx.run_case(c, reraise=False)
-    ctx.extra['exhaustive_enum_grid'] = '%d (min, max) pairs: min in %r, max in %r' % (len(GRID_MIN) * len(GRID_MAX), GRID_MIN, GRID_MAX)
-    ctx.extra['permutation_batches_total'] = len(perms)
+    if ctx.shard == 0:
+        ctx.extra['exhaustive_enum_grid'] = '%d (min, max) pairs: min in %r, max in %r' % (len(GRID_MIN) * len(GRID_MAX), GRID_MIN, GRID_MAX)
+        ctx.extra['permutation_batches'] = '%d of %d (all orders of every 4-subset of %d member types)' % (len(perms), len(_perm_cases()), len(PERM_POOL))
     ctx.hyp(_batch(), spec['n'], shrink=False)
 
 
